@@ -118,6 +118,13 @@ func scenario(x *explore.X, maxSegs int, withBackPressure bool) {
 	var sentC, sentT []byte // payload bytes each side has sent so far
 	upClose := false
 	head := "CONNECT " + target + " HTTP/1.1\r\nHost: " + target + "\r\n\r\n"
+	framing := ""
+	if routings[routing] != "upgrade" {
+		// a CONNECT request has no body: a framing field on it (sent by some clients) means nothing, whatever follows
+		// the head belongs to the tunnel
+		framing = []string{"", "Content-Length: 5\r\n", "Content-Length: 0\r\n", "Transfer-Encoding: chunked\r\n"}[x.Choose("connect-request-framing-field", 4)]
+		head = "CONNECT " + target + " HTTP/1.1\r\nHost: " + target + "\r\n" + framing + "\r\n"
+	}
 	if routings[routing] == "upgrade" {
 		conn := "Upgrade"
 		if x.Choose("upgrade-request-also-says-close", 2) == 1 {
@@ -238,7 +245,7 @@ func scenario(x *explore.X, maxSegs int, withBackPressure bool) {
 	}
 	// ---- explore all interleavings of the remaining script events ------------------------------
 	cFin, tFin := false, false
-	hist := fmt.Sprintf("%s|aged=%v|close=%v|to=%s|c%v|t%v|", routings[routing], aged, upClose, srvTO, lens(cs), lens(ts))
+	hist := fmt.Sprintf("%s|aged=%v|close=%v|to=%s|fr=%q|c%v|t%v|", routings[routing], aged, upClose, srvTO, framing, lens(cs), lens(ts))
 	check := func(ev string) bool {
 		x.Check()
 		gotT, gotC := tg.Recv(), cl.Recv()
